@@ -45,14 +45,20 @@ PROPS = {
     "C18": {"lean": CTLMOD, "prefixes": ["c18_", "c07_single_wo", "ctl_reachable_inv"],
             "runs": [ctl("membership", 480, 30, 9000, 40, 17)], "modelled": CTL},
     "C01": {"lean": ["JivaVerif.Properties.C01"],
-            "runs": [rep("io", 160, 30, 4000, 45), rep("mix", 96, 30, 3000, 45, 1)], "modelled": FS},
+            "runs": [rep("io", 480, 30, 8000, 45), rep("mix", 320, 30, 6000, 45, 1)], "modelled": FS},
     "C06": {"lean": ["JivaVerif.Properties.C06"],
-            "runs": [rep("snapshots", 192, 32, 5000, 45, 2)], "modelled": FS},
+            "runs": [rep("snapshots", 640, 32, 10000, 45, 2)], "modelled": FS},
     "C10": {"lean": ["JivaVerif.Properties.C10"],
-            "runs": [rep("counter", 160, 30, 3000, 45, 3)], "modelled": FS + [
+            "runs": [rep("counter", 320, 30, 5000, 45, 3)], "modelled": FS + [
                 "modelled: the counter file is one 4 KiB O_DIRECT block rewritten by a single pwrite under revisionLock; concurrent writers are one atomic step each"]},
     "C11": {"lean": ["JivaVerif.Properties.C11"],
-            "runs": [rep("delete", 192, 36, 5000, 50, 4)], "modelled": FS},
+            "runs": [rep("delete", 640, 36, 10000, 50, 4)], "modelled": FS},
+    "C12": {"lean": ["JivaVerif.Properties.C12"],
+            "runs": [rep("mgmt", 480, 32, 6000, 45, 6)], "modelled": FS + [
+                "modelled: one copy of the chain metadata; that the *.meta files and the in-memory tables stay equal is checked by the correspondence runs (chain, attributes, data after every request and after reopen), not proved"]},
+    "C17": {"lean": ["JivaVerif.Properties.C17"],
+            "runs": [rep("modes", 480, 32, 6000, 45, 7)], "modelled": FS + [
+                "partial (so far): the REST action table and the attach path through backend/remote are exercised by the restdiff engine when present"]},
     "C16": {"lean": ["JivaVerif.Properties.C16"],
-            "runs": [rep("resize", 160, 30, 3000, 45, 5)], "modelled": FS},
+            "runs": [rep("resize", 480, 30, 6000, 45, 5)], "modelled": FS},
 }
